@@ -228,7 +228,7 @@ Qed.
    if the conversion of `its` yields t then `its` renders t with at least the parentheses the
    specification table requires. *)
 Theorem parse_sound_impl : forall its t,
-  Items impl_table infix_map prefix_map its t -> RendSpec 0 its t.
+  Items impl_table infix_map prefix_map its t -> RendSpec 1 its t.
 Proof.
   intros its t H.
   destruct (items_sound_op impl_table infix_map prefix_map spec_bprec spec_rassoc
@@ -241,5 +241,5 @@ Proof.
   - exact impl_level_assoc.
   - vm_compute. repeat constructor.
   - apply impl_lbp_le_0 in Hl. subst rest. rewrite app_nil_r in Hi. subst cons.
-    unfold RendSpec. eapply Rend_mono; [exact HR | lia].
+    exact HR.
 Qed.
